@@ -407,6 +407,7 @@ type cmd struct {
 	Hdr      []KV   `json:"hdr"`
 	CHelpers []KV   `json:"chelpers"`
 	Helpers  []KV   `json:"helpers"`
+	Reuse    string `json:"reuse"` // non-empty: keep and reuse one client object under this key
 	Timeout  int    `json:"timeout_ms"`
 	ReqType  string `json:"req_type"`
 	// codec
@@ -502,7 +503,16 @@ func doCall(c *cmd) {
 	}
 	hc := &http.Client{Transport: &http.Transport{DisableKeepAlives: false, MaxIdleConnsPerHost: 4}}
 	defer hc.CloseIdleConnections()
-	inv, err := getInvokers(c, hc)
+	var inv map[string]Invoker
+	var err error
+	if cached, ok := clientCache.Load(c.Reuse); ok && c.Reuse != "" {
+		inv = cached.(map[string]Invoker) // the same client object as the earlier call(s)
+	} else {
+		inv, err = getInvokers(c, hc)
+		if err == nil && c.Reuse != "" {
+			clientCache.Store(c.Reuse, inv)
+		}
+	}
 	if err != nil {
 		emit(map[string]any{"ev": "error", "id": c.ID, "err": err.Error()})
 		return
